@@ -453,6 +453,7 @@ Proof.
     destruct (by_mass st s) as [st1 rows]. simpl in *.
     destruct (nth_error rows r); intros H; inversion H; subst; auto.
     destruct IB as [S C]. split; unfold store_lt, cmap_lt in *; simpl; rewrite wr_length; auto.
+  - destruct (nth_error (ss st) i); intros H; inversion H; subst; auto.
   - intros H; inversion H; subst; auto.
 Qed.
 
